@@ -29,6 +29,16 @@ def run(chk):
         e3.table_crossing_dispatch(db, chk, cfg)
         e9.rule_int64_product(db, chk, cfg)
         e3.ip_on_edge_rule(db, chk, cfg)
+        rec = db.record("Active")
+        for fd in rec.fields:
+            if fd.get("name") in ("wind_cnt", "wind_cnt2"):
+                from ..astq import dqt as _dqt, where as _where
+                t = _dqt(fd).replace("const ", "")
+                ok = t in ("int", "long", "long long", "int32_t", "int64_t")
+                chk.instance("TYPE.wind-count", {"field": fd.get("name"), "type": t, "cfg": cfg}, ok=ok)
+                if not ok:
+                    chk.violation("TYPE.wind-count", "Active", fd.get("name"), "Active::%s has type %s: winding numbers grow with the nesting depth of the input "
+                                  "(one per enclosing contour) and must not wrap below 2^31" % (fd.get("name"), t), _where(fd), cfg=cfg)
         e3.no_single_precision(db, chk, cfg)
         from .c12 import _public_methods
         for cls in (["ClipperBase", "Clipper64"], ["ClipperBase", "ClipperD"]):
@@ -46,6 +56,7 @@ def run(chk):
              "its updated counts")
     chk.rule("INT64.product", "no product is formed in a signed 64-bit integer type: C01 holds for coordinates up to 2^61, where any product of "
              "two coordinate differences wraps (TopX, intersection points and orientation tests work in double or 128-bit arithmetic)")
+    chk.rule("TYPE.wind-count", "Active::wind_cnt and wind_cnt2 are at least 32-bit integers (winding numbers count enclosing contours)")
     chk.rule("IP.on-edge", "AddNewIntersectNode: an intersection computed outside its scanbeam is clamped to top_y / bot_y_ and its x is recomputed "
              "with TopX on one of the two edges at that same y (4 cells, correction block interpreted)")
     chk.rule("SORTED.invalidate", "the sweep pops local minima from a list it assumes sorted: every public method that may modify minima_list_ writes "
